@@ -10,6 +10,8 @@ RULE = ("fill_contiguous with rectangles inside / overlapping each of the 8 edge
 TRUSTED = ["Oracle/Controller.v, Oracle/DrawSpec.v", "harness/build.rs extraction of the #[cfg(target_pointer_width = \"16\")] items"]
 ASSUMPTIONS = ["rectangles valid for embedded-graphics with < 2^32 points; finite fused colour iterators (lists / ranges)"]
 PER_SHARD = 30
+CASE_TYPE = "(c4case * c4out)"
+IMPORTS = "Require Import Model.Ptr16 Corr.C04."
 
 
 def rect_cases(rng, lw, lh):
@@ -53,9 +55,39 @@ def gen(rng, tier, info, ifaces=(0, 1, 2, 7)):
         clipped = r0[0] < 0 or r0[1] < 0 or r0[0] + r0[2] > lw or r0[1] + r0[3] > lh
         pc["tags"] = ["clipped" if clipped else "inside", pc["md"], "batch" if pc["batch"] else "nobatch"] + [op[0] for _, op in ops]
         pc["nontrivial"] = clipped
-        cases.append(vlib.pcase(pc))
+        c = vlib.pcase(pc)
+        c.coq = "C4P (%s)" % c.coq
+        cases.append(c)
+    # the 16-bit-pointer helper variants, extracted from the current source
+    for _ in range(150 if tier == "quick" else 1500):
+        ln = rng.choice([0, 1, 2, 5, rng.range(0, 40)])
+        items = [rng.range(0, 999) for _ in range(ln)]
+        nn = rng.choice([0, 1, max(0, ln - 1), ln, ln + 1, ln + 7, rng.range(0, ln + 3), 4294967295])
+        v = rng.choice(["db", "rb"])
+        if rng.chance(1, 2):
+            line = "ptr16 take %d %d %s" % (nn, ln, " ".join(map(str, items)))
+            coq = "C4Take %s %d %s" % ("Debug" if v[0] == "d" else "Release", nn, vlib.zl(items))
+        else:
+            nn = min(nn, 100000)      # the counted loop really runs n times
+            line = "ptr16 nth %d %d %s" % (nn, ln, " ".join(map(str, items)))
+            coq = "C4Nth %d %s" % (nn, vlib.zl(items))
+        cases.append(vlib.Case(line.strip(), coq, v, tags=["ptr16"], nontrivial=ln > 0))
     return cases
 
 
+def wrap_impl(case, impl):
+    if case.line.startswith("ptr16"):
+        inner = impl.strip()[1:-1]
+        a, rest = inner.split(",", 1)
+        b, c = rest.rsplit(", [", 1)
+        return "C4H %s %s [%s" % (a.strip(), b.strip(), c.strip())
+    return "C4PO " + impl
+
+
 def shrink(case):
-    return drawgen.shrink_prog(case)
+    if case.line.startswith("ptr16"):
+        return []
+    out = drawgen.shrink_prog(case)
+    for c in out:
+        c.coq = "C4P (%s)" % c.coq
+    return out
